@@ -404,6 +404,10 @@ def full_match_rule(ctx, eng: str, rule: str = "R4") -> None:
     p_ver = fn.params[0]
     mcalls = [c for c in ast.walk(fn.node) if isinstance(c, ast.Call) and isinstance(c.func, ast.Attribute) and c.func.attr in ("match", "fullmatch", "search")
               and unparse(c.func.value).endswith("regexp")]
+    if not mcalls:
+        # the expression may be derived from the pattern's (re.compile of an anchored copy ...): the regex call that receives the version string
+        mcalls = [c for c in ast.walk(fn.node) if isinstance(c, ast.Call) and isinstance(c.func, ast.Attribute) and c.func.attr in ("match", "fullmatch", "search")
+                  and c.args and unparse(c.args[0]) == p_ver]
     reassigned = [st for st, tg, _v in shapes.iter_assigns(fn.node) if unparse(tg) == p_ver]
     if reassigned:
         ctx.bad(rule, f"{fq}: the version string is altered before it is (re-)matched",
@@ -453,7 +457,7 @@ def full_match_rule(ctx, eng: str, rule: str = "R4") -> None:
         ctx.ok(rule, what)
     else:
         ctx.bad(rule, f"{fq}: a prefix match is accepted as a full version",
-                f"`{unparse(mc)}` anchors only the start and nothing compares the match length with len({p_ver}): "
+                f"`{unparse(mc)[:80]}` anchors only the start (a `$` in the expression also matches before a final line feed) and nothing compares the match length with len({p_ver}): "
                 f"the gate accepts a version with trailing garbage, which is then announced/written although it does not match the pattern in full",
                 loc=fn.loc(mc), what=what,
                 witness={"cmd": "bumpver test v201712.0033 '{pycalver}' --set-version v201801.0034.5", "announced": "v201801.0034.5"} if eng == "v1version" else None)
